@@ -21,6 +21,7 @@ TABLE = [
  ("regress/C10/trust-after-unregister-inflight-report-8c57a91.json", "8c57a91"),
  ("regress/C18/direct-state-overwritten-before-notified.json", "7c952f8"),
  ("regress/C10/trusted-after-unregister-connection-ended-by-itself-1ff4d72.json", "1ff4d72"),
+ ("regress/C05/replaced-double-connection-set-up-last.json", "937fc09"),
 ]
 pairs = TABLE
 if len(sys.argv) > 2:
